@@ -46,6 +46,15 @@ def run(rep):
     opts = {"prefix_ops": 120, "rounds": 10 if tier == "quick" else 30, "shard": 2 if tier == "quick" else 4}
     n = 25 if tier == "quick" else 600
     R = SG.run_sim_cases(rep, "C06", opts, n, rng, broken)
+    # replica-local rules progress depends on (availability: a committed block is durable before the proposal cache
+    # is pruned and the state backed up; certificates shown are retained; timeouts report the latest vote), on
+    # single-replica scenarios with crashes — the cluster engine persists a block as soon as it is queued, so a
+    # payload lost between queueing and flushing cannot be exhibited there
+    import c05
+    RR = c05.run_replica_cases(rep, "C06", {"rounds": 6, "crash": True, "extreme": False}, 24 if tier == "quick" else 400, rng.fork(), broken)
+    for pf in RR["pred_fail"]:
+        R["mon_fail"].append({"monitor": "C06 replica-local rule", "failed": pf["failed"], "case": pf["case"], "harness": "replica",
+                              "meta": {"step": pf.get("step")}})
     # live runs of the real component (run loop with its timer, proposer loop, inbound queue)
     L = SG.run_live_cases(opts, 6 if tier == "quick" else 80, rng)
     R["mon_fail"] += L["fails"]
@@ -125,6 +134,9 @@ def replay(path):
         print("no concrete input:", d.get("broken"))
         return 1
     case = fi["case"]
+    if "store_first" in case:
+        import c05
+        return c05.replay(path)
     if "script" in case:
         return replay_live(fi)
     case["_c"] = [(int(k), int(w)) for k, w in case["committee"]]
